@@ -51,7 +51,7 @@ func c12Publish(c *Ctx) {
 			case isResultLoad(ins):
 				lds = append(lds, ins)
 			}
-			if f, _ := resultStore(ins); f != "" {
+			for f := range resultStores(ins) {
 				stores[f] = append(stores[f], ins)
 			}
 		})
@@ -406,15 +406,67 @@ func isRecvDone(ins ssa.Instruction) bool {
 	return ok && u.Op == token.ARROW && hasOrigin(u.X, func(o string) bool { return o == "field:request.done" })
 }
 
-func resultStore(ins ssa.Instruction) (field string, val ssa.Value) {
+// resultStores: the result fields an instruction writes, with the values written - a store to
+// request.data or request.err, or a store of the whole nested struct the two were grouped into
+// (request.outcome = requestOutcome{data: d, err: e}).
+func resultStores(ins ssa.Instruction) map[string]ssa.Value {
 	x, ok := ins.(*ssa.Store)
 	if !ok {
-		return "", nil
+		return nil
 	}
-	if fa, ok := x.Addr.(*ssa.FieldAddr); ok && (fieldOf(fa) == "request.data" || fieldOf(fa) == "request.err") {
-		return fieldOf(fa), x.Val
+	fa, ok := x.Addr.(*ssa.FieldAddr)
+	if !ok {
+		return nil
 	}
-	return "", nil
+	f := fieldOf(fa)
+	if (f == "request.data" || f == "request.err") && inRequest(fa) {
+		return map[string]ssa.Value{f: x.Val}
+	}
+	members, isGroup := fieldGroups[f]
+	if !isGroup {
+		return nil
+	}
+	out := map[string]ssa.Value{}
+	for _, m := range members {
+		if m == "request.data" || m == "request.err" {
+			out[m] = nil
+		}
+	}
+	// the composite literal the struct value is loaded from
+	if ld, isLd := x.Val.(*ssa.UnOp); isLd && ld.Op == token.MUL {
+		if lit, isAlloc := ld.X.(*ssa.Alloc); isAlloc && lit.Referrers() != nil {
+			for _, ref := range *lit.Referrers() {
+				if mfa, isFA := ref.(*ssa.FieldAddr); isFA && mfa.Referrers() != nil {
+					for _, r2 := range *mfa.Referrers() {
+						if st, isSt := r2.(*ssa.Store); isSt && st.Addr == mfa {
+							if _, want := out[fieldOf(mfa)]; want {
+								out[fieldOf(mfa)] = st.Val
+							}
+						}
+					}
+				}
+			}
+		}
+	}
+	if len(out) == 0 {
+		return nil
+	}
+	return out
+}
+
+// inRequest: the field address lies in a request - directly, or in the nested struct of a
+// request that groups the result fields (not in a free-standing value of that nested type, such
+// as the composite literal about to be stored).
+func inRequest(fa *ssa.FieldAddr) bool {
+	pt, ok := fa.X.Type().Underlying().(*types.Pointer)
+	if !ok {
+		return false
+	}
+	if tn := typeName(pt.Elem()); tn == "desync.request" || strings.HasSuffix(tn, ".request") {
+		return true
+	}
+	outer, ok := fa.X.(*ssa.FieldAddr)
+	return ok && len(fieldGroups[fieldOf(outer)]) > 0
 }
 
 func isResultLoad(ins ssa.Instruction) bool {
@@ -423,7 +475,19 @@ func isResultLoad(ins ssa.Instruction) bool {
 		return false
 	}
 	fa, ok := u.X.(*ssa.FieldAddr)
-	return ok && (fieldOf(fa) == "request.data" || fieldOf(fa) == "request.err")
+	if !ok {
+		return false
+	}
+	f := fieldOf(fa)
+	if f == "request.data" || f == "request.err" {
+		return inRequest(fa)
+	}
+	for _, m := range fieldGroups[f] {
+		if m == "request.data" || m == "request.err" {
+			return true
+		}
+	}
+	return false
 }
 
 // publishSite is one "publish the result and wake the waiters": a call of markDone(data, err) or
@@ -452,7 +516,10 @@ func publishSites(fn *ssa.Function) []publishSite {
 		}
 		ps := publishSite{at: ins}
 		instrsAll(fn, func(_ *ssa.BasicBlock, _ int, i2 ssa.Instruction) {
-			if f, v := resultStore(i2); f != "" && i2.Parent() == ins.Parent() && instrDominates(i2, ins) {
+			if i2.Parent() != ins.Parent() || !instrDominates(i2, ins) {
+				return
+			}
+			for f, v := range resultStores(i2) {
 				if f == "request.data" {
 					ps.data = v
 				} else {
